@@ -591,6 +591,10 @@ func (fc *fileCtx) visit(n ast.Node, parent ast.Node, d int) {
 				fc.replace(n.Pos(), n.End(), "simrt.Stdin()", d, false)
 				fc.markRewritten(local)
 				fc.count("os.Stdin")
+			case "Stdout":
+				fc.replace(n.Pos(), n.End(), "simrt.Stdout()", d, false)
+				fc.markRewritten(local)
+				fc.count("os.Stdout")
 			default:
 				if r, ok := osFuncs[n.Sel.Name]; ok {
 					fc.replace(n.Pos(), n.End(), "simrt."+r, d, false)
